@@ -22,6 +22,7 @@ import (
 	"fmt"
 	"io"
 	"os"
+	"runtime/pprof"
 	"sync"
 	"time"
 
@@ -196,6 +197,12 @@ func main() {
 		os.Exit(0)
 	}
 
+	if pf := os.Getenv("VERIF_C13_PROF"); pf != "" { // developer aid: CPU profile of the search
+		if fh, err := os.Create(pf); err == nil {
+			pprof.StartCPUProfile(fh)
+			defer pprof.StopCPUProfile()
+		}
+	}
 	var wg sync.WaitGroup
 	order := []string{"container", "container-u", "registry", "kube", "misc", "glue"}
 	lists := map[string]*foundList{}
@@ -251,5 +258,6 @@ func main() {
 	r.SetRule("case = shortest operation history reaching a distinct state key (implementation dump ⊕ reference); BFS expands every enabled operation of every state up to the depth bound; " +
 		"distinct_nontrivial counts states whose last operation made the real code handle an event (put-new/put-same/put-changed/delete/batch, reload with a non-empty diff, late Monitor, kube callback), " +
 		"plus one per subset size and per seeded Build size; operations applied to the reference only (while disconnected / before the informer starts) are not counted")
+	pprof.StopCPUProfile()
 	r.Finish()
 }
